@@ -113,7 +113,10 @@ func fileExists(name string) (bool, error) {
 }
 
 func (o *Options) populateGlobals(c *cli.Context) error {
-	if !c.IsSet("no-database") && (c.IsSet("database") || o.GlobalConfig.DbFileName == "") {
+	if c.Bool("no-database") {
+		// an empty recipe book: the null device reads as an empty file
+		o.GlobalConfig.DbFileName = os.DevNull
+	} else if c.IsSet("database") || o.GlobalConfig.DbFileName == "" {
 		o.GlobalConfig.DbFileName = c.String("database")
 	}
 
